@@ -371,13 +371,18 @@ def run(ctx):
   if viol:
     viol = minimise(viol, ctx.workdir)
   stats = _stats(files)
+  by = {}
+  for v in viol:
+    hit = sorted(name for name, m in MATCHERS.items() if _safe(m, v)) or ["<no matcher>"]
+    by[hit[0]] = by.get(hit[0], 0) + 1
+  stats["violations_by_matcher"] = by
   return {
     "states": model["distinct"] + n, "transitions": model["generated"] + n,
     "traces_validated_against_impl": n,
     "evaluations": stats["formula_texts_judged"],
     "distinct_nontrivial": stats["steps_that_rewrote_a_formula"],
-    "rule": "TLC enumerates the rename steps of %s (12 column targets x 5 paths and 2 table targets x 3 paths x 12 "
-            "requested-name classes%s) over one document whose formula columns cover $col, rec.col, ref chains, "
+    "rule": "TLC enumerates the rename steps of %s (12 column targets x 5 paths and 2 table targets x 3 paths x 13 "
+            "requested-name classes%s) over documents whose formula columns cover $col, rec.col, ref chains, "
             "lookupRecords/lookupOne keywords, order_by strings and tuples, .all, comprehensions, "
             "PREVIOUS/NEXT/RANK arguments, f-strings, local variables and decoys; plus %d seeded random documents "
             "and steps; an evaluation is one formula text judged against the rendering of its tree under the new "
@@ -396,6 +401,13 @@ def run(ctx):
     "violations": viol,
     "extra": stats,
   }
+
+
+def _safe(m, v):
+  try:
+    return bool(m(v))
+  except Exception:   # pylint: disable=broad-except
+    return False
 
 
 def _stats(files):
